@@ -1,6 +1,6 @@
 """Per-property configuration of the checks (parts, bounds, non-triviality rules, evidence text)."""
 
-HARNESS_SOURCES = ["main.cc", "engine_poly.cc", "engine_tet.cc", "engine_hex.cc", "mon_hist.cc", "mon_c12.cc", "mon_iter.cc", "mon_query.cc", "mon_c13.cc", "mon_c14.cc"]
+HARNESS_SOURCES = ["main.cc", "engine_poly.cc", "engine_tet.cc", "engine_hex.cc", "mon_hist.cc", "mon_c12.cc", "mon_iter.cc", "mon_query.cc", "mon_c13.cc", "mon_c14.cc", "mon_c15.cc", "mon_c16.cc"]
 
 def cnt(js, k):
     return js.get("cnt", {}).get(k, 0)
@@ -174,6 +174,30 @@ PROPS = {
   "min_counts": {"identity.same": 3000, "identity.different": 20000, "transitions.thrown": 1000, "mesh.destroy": 1000, "mesh.assign": 300},
   "assumptions": COMMON_ASSUME + ["set_name is exercised inside the domain that keeps shared names unique (see DESIGN.md: renaming a shared property onto a taken name is not checked by the library and is recorded separately)", "LeakSanitizer reports leaks at process exit"],
  },
+ "C15": {
+  "level": "exploration",
+  "technique": "shape-invariant scan after every step; brute-force order contracts for all cells/halffaces/halfedges; all TetTopology constructors and all 12+24 labels checked against the scan; collapse_edge against an id-space model with orientation parity, link condition decided by brute force",
+  "parts": [
+    {"name": "dbg", "flavor": "asan-dbg", "monitor": "C15", "cases": {"quick": 800, "thorough": 12000}},
+  ],
+  "nontrivial": {"fn": lambda js: cnt(js, "tet.cells-checked") >= 10 and cnt(js, "tet.labelings") >= 20,
+                 "text": "case = tet complex (fans around edges, tets glued on faces/edges/vertices, boundary) in one of the four deletion modes; history mixing collapse_edge on brute-force-collapsible halfedges (link condition in the complex of all live simplices; clean complexes only), add_cell by 4 vertices (both overloads, topology check on/off), engine mutations (delete/swap/gc/mode switches). After every step: faces have 3 edges, cells 4 faces/4 distinct vertices; periodically: get_cell_vertices (4 forms), halfface_opposite_vertex/vertex_opposite_halfface inverse, tv_iter, every TetTopology constructor with all 12 (halfface,start) choices x 2 + per-vertex + default, 12 halfedge and 24 halfface labels, get_label inverses, TriangleTopology. collapse: expected cells = former cells not containing both ends with a->b, same orientation parity; returned handle must carry b's id; vertex and cell property values follow. non-trivial = >=10 cells and >=20 labelings checked; distinct by operation digest"},
+  "floor": {"quick": 200, "thorough": 3000},
+  "min_counts": {"op.collapse_edge": 500, "collapse.cells-rewritten": 300, "collapse.cells-dropped": 500, "tet.labelings": 20000, "op.add_cell(vertices)": 500},
+  "assumptions": COMMON_ASSUME + ["collapse_edge is only applied where the link condition holds and the mesh is a clean simplicial complex (no parallel edges / duplicate faces)", "edge/face identities and their property values after a collapse are unspecified and re-established from the mesh"],
+ },
+ "C16": {
+  "level": "exploration",
+  "technique": "brute-force layout oracle on vertex sets for every live hex after every few steps; orientation helpers and orthogonal_orientation vs cross product; hex_vertices pattern; sheet circulators vs neighbour scan; permutation probes of add_cell(check) with snapshot equality on rejection",
+  "parts": [
+    {"name": "dbg", "flavor": "asan-dbg", "monitor": "C16", "cases": {"quick": 500, "thorough": 6000}},
+  ],
+  "nontrivial": {"fn": lambda js: cnt(js, "hex.cells-checked") >= 10 and cnt(js, "hex.permutations") >= 30,
+                 "text": "case = blocks of hexes (1..3 x 1..2 x 1..2, random cells removed -> L/U shapes, several blocks glued on faces) in one of the four deletion modes; history of deletions, garbage collection, swaps, add_cell from eight vertices (faces reused through the lookups) and from halffaces. For every live cell: halffaces 2k/2k+1 vertex-disjoint, neighbours around the first halfface = positions 2,4,3,5 cyclically, orientation()/opposite_halfface_handle_in_cell/x,y,z front/back/get_oriented_halfface agree, hex_vertices distinct + first four against the first halfface's order + last four on the opposite halfface + pattern pairs 0-4,1-7,2-6,3-5 and both rings joined by edges, cell_sheet_cells and halfface_sheet_halffaces vs the neighbour scan, adjacent_halfface_on_sheet/on_surface. Finally add_cell(check=true) with 60 (thorough: all 720 every 8th case) permutations of a valid halfface list: accepted => correct layout, rejected => complete snapshot unchanged. non-trivial = >=10 cells checked and >=30 permutations; distinct by operation digest"},
+  "floor": {"quick": 150, "thorough": 2000},
+  "min_counts": {"hex.cells-checked": 20000, "hex.csc.nonempty": 5000, "hex.hfshf.nonempty": 5000, "hex.permutations.accepted": 2000, "hex.on_sheet.interior": 5000, "op.add_cell(8 vertices)": 300},
+  "assumptions": COMMON_ASSUME + ["all cells of these meshes are created from eight vertices, with topology check, or from lists already in XF,XB,YF,YB,ZF,ZB order (the layout claim does not extend to unchecked lists in another order)"],
+ },
  "C17": {
   "level": "exploration",
   "technique": "handle-level before/after snapshot of every swap (tags, flags, all properties side by side), double-swap and self-swap identity, plus model and incidence oracles",
@@ -216,6 +240,10 @@ LEVEL_TEXT = {
          "note": "trusted: snapshot completeness; shared storage would show as a changed snapshot or an ASan report"},
  "C14": {"text": "Runtime exploration against an executable model of the registry (about 60 lines): every observable of the registry is compared after every call of random programs; lifetime errors surface as ASan/LSan reports.",
          "note": "trusted: the registry model; write-through as the identity observation"},
+ "C15": {"text": "Runtime exploration: contracts are evaluated on every cell/halfface/halfedge/label of the reached tet complexes; collapse_edge is checked against the id-space prediction incl. orientation parity in all four deletion modes.",
+         "note": "trusted: the brute-force link condition and cell tuple computation"},
+ "C16": {"text": "Runtime exploration: the layout and navigation contracts are recomputed from vertex sets for every live hexahedron of the reached states; permutations of valid halfface lists probe the re-ordering code (all 720 in the thorough tier).",
+         "note": "trusted: Scan and the vertex-set based neighbour computation"},
  "C17": {"text": "Runtime exploration: every swap is observed at handle level (tags, deletion flags, all property arrays side by side) before/after, repeated (identity) and with equal arguments (no-op), combined with the model and incidence oracles.",
          "note": "trusted: snapshots read through the public API; contents of deleted slots unspecified"},
 }
